@@ -805,6 +805,16 @@ def is_integer_form(v, depth=0):
 def mk_fn(name, args, kwargs=()):
     args = list(args)
     kwargs = sorted(kwargs, key=lambda kv: kv[0])
+    if name == "arange" and len(args) == 3 and not kwargs and all(isinstance(a_, Form) for a_ in args) and args[1] == Form.num(-1) and args[2] == Form.num(-1):
+        # arange(k-1, -1, -1) counts k-1 ... 0: arange(k) read backwards
+        return mk_idx(mk_fn("arange", [args[0] + 1]), SliceV(Const(None), Const(None), Form.num(-1)))
+    if name == "lshift" and len(args) == 2 and not kwargs and isinstance(args[0], Form) and args[0] == Form.num(1) and isinstance(args[1], Form):
+        return fpow(Form.num(2), args[1])          # 1 << k is 2**k
+    if name in ("len", "size") and len(args) == 1 and not kwargs and isinstance(args[0], Form):
+        a = args[0].single_atom()
+        if a is not None and a[0] == "fn" and a[1] in ("sort", "flip", "roll", "abs", "real", "imag", "conj", "cumsum", "fftshift", "ifftshift") and a[2] and isinstance(a[2][0], Form) \
+                and not [k for k, _v in a[3] if k == "axis"]:
+            return mk_fn(name, [a[2][0]])          # a reordering / element-wise image has as many elements
     if name == "count_nonzero" and len(args) == 1 and not kwargs and is_boolean_form(args[0]):
         name = "sum"               # the number of True entries of a boolean array
     if name == "int" and len(args) == 1 and not kwargs and isinstance(args[0], Form):
